@@ -463,7 +463,9 @@ impl Local {
                 debug_assert!(self.epoch.load(Ordering::Relaxed).is_pinned());
                 let guard = ManuallyDrop::new(Guard { local: self });
                 self.global().collect(&guard);
-                self.repin_without_collect();
+                // A destructor may have created a guard that is still alive (parked or leaked);
+                // the `Snapshot`s loaded through it rely on the current local epoch.
+                self.repin_unless_foreign_guards(0);
             }
             self.collecting.set(false);
         }
@@ -504,6 +506,16 @@ impl Local {
             self.epoch.store(global_epoch, Ordering::Release);
         }
         global_epoch
+    }
+
+    /// Repins like `repin_without_collect`, unless a guard other than the one being unpinned by
+    /// an ongoing collection and the `own` guards of the caller keeps this participant pinned.
+    #[inline]
+    pub(crate) fn repin_unless_foreign_guards(&self, own: usize) {
+        let base = if self.collecting.get() { 1 } else { 0 };
+        if self.guard_count.get() == base + own {
+            self.repin_without_collect();
+        }
     }
 
     /// Increments the handle count.
